@@ -15,6 +15,6 @@ class CountControlConstructionTokenTranslator(AbstractTranslator):
         matrices = ', '.join(
             MatrixOfCellIdentifiersTokenTranslator.translate(matrix, excel, context)
             for matrix in token.matrices
-        ) or []
+        )
         arg_cells = ', '.join(CellTranslator.translate(arg.cell, excel, context) for arg in token.arg_cells)
-        return f'self._count({matrices}, {args}, [{arg_cells}])'
+        return f'self._count([{matrices}], {args}, [{arg_cells}])'
